@@ -6,7 +6,7 @@ type pargs = { ver : string; kind : int; raw : z list; rep : z list; e : z; ws :
                o : popts; fn : int }
 
 let parse_print ver a =
-  let kind = (match next a with "T" -> 0 | _ -> 1) in
+  let kind = Hist.kind_code (next a) in
   let raw = next_list a next_z in
   let rep = next_list a next_z in
   let e = next_z a in
